@@ -127,6 +127,7 @@ LEAN_FILES = {
     "Graph2.lean": ("L-CYCLE,L-BYPASS", ["C01", "C07", "C09"]),
     "Count.lean": ("L-COUNT", ["C02"]),
     "Induction.lean": ("L-IND(rank-induction),L-INV(invariant-rule)", ["C03", "C05", "C08"]),
+    "Needed.lean": ("L-NEEDED(a-kept-node-is-required-or-has-a-kept-successor),L-NEEDED-read(a-kept-read-node-has-a-kept-argument-consumer)", ["C05", "C03"]),
 }
 
 
